@@ -27,6 +27,10 @@ func (m *MsgSubmitProofExternalOwnedAccount) ValidateBasic() error {
 		return errorsmod.Wrapf(errors.ErrInvalidRequest, "account to prove is not a valid bech32 account address: %s", m.Account)
 	}
 
+	if len(accAddr) != common.AddressLength {
+		return errorsmod.Wrapf(errors.ErrInvalidRequest, "account to prove must be a %d-byte address: %s", common.AddressLength, m.Account)
+	}
+
 	if bytes.Equal(submitterAccAddr, accAddr) {
 		return errorsmod.Wrapf(errors.ErrInvalidRequest, "submitter and account to prove are equals: %s", m.Account)
 	}
